@@ -51,3 +51,38 @@ Theorem C17_flushed_callbacks_report_the_published_events : forall PS, (hdr_len 
   end.
 Proof. exact flushed_callbacks_report_the_published_events. Qed.
 Print Assumptions C17_flushed_callbacks_report_the_published_events.
+
+(* the tail id a successful flush stores in the queue root is the id of the next event to be written, i.e. the first id of
+   the session plus the number of completed events: Pending = tail id - read id counts exactly the published events *)
+From VF Require Import PQWriterHeaderProofs.
+Theorem C17_persisted_tail_id_counts_the_published_events : forall PS, (hdr_len <= payload PS)%nat ->
+  forall pages tail endId root ops o,
+  match tail with Some t => (length (wp_data t) <= payload PS)%nat | None => True end ->
+  let '(s1, rs) := w_run PS (w_init PS pages tail endId root) ops in
+  let '(s2, r) := w_step PS s1 o in
+  let '(done, cur) := spec_step (spec_run ([], []) ops rs) o r in
+  match o, r with
+  | WNext _, WOk (Some (FDone _ _ _, _)) | WFlush _, WOk (Some (FDone _ _ _, _)) =>
+      snd (q_tail (ws_root s2)) = (endId + Z.of_nat (length done))%Z
+  | _, _ => True
+  end.
+Proof.
+  intros PS HP pages tail endId root ops o Ht.
+  pose proof (w_run_SI PS HP ops _ _ [] [] (w_init_SI PS HP pages tail endId root Ht)) as HS.
+  pose proof (w_run_HInv PS HP ops _ endId _ [] [] (w_init_SI PS HP pages tail endId root Ht) (w_init_HInv PS HP pages tail endId root)) as HI.
+  destruct (w_run PS (w_init PS pages tail endId root) ops) as [s1 rs].
+  destruct (spec_run ([], []) ops rs) as [done1 cur1].
+  destruct o as [d fo|fo|fo].
+  - destruct (w_step PS s1 (WWrite d fo)) as [s2 r]. destruct (spec_step (done1, cur1) (WWrite d fo) r). exact I.
+  - pose proof (w_step_HInv PS HP s1 (WNext fo) endId _ done1 cur1 HS HI) as HI2.
+    destruct (w_step PS s1 (WNext fo)) as [s2 r] eqn:E.
+    destruct (spec_step (done1, cur1) (WNext fo) r) as [done cur].
+    destruct r as [[[fr cb]|]|]; try exact I. pose proof (w_step_tail_id PS s1 (WNext fo) s2 fr cb E) as HT.
+    destruct fr; try exact I. etransitivity; [exact HT|]. exact (hi_id PS s2 endId _ done HI2).
+  - pose proof (w_step_HInv PS HP s1 (WFlush fo) endId _ done1 cur1 HS HI) as HI2.
+    destruct (w_step PS s1 (WFlush fo)) as [s2 r] eqn:E.
+    destruct (spec_step (done1, cur1) (WFlush fo) r) as [done cur].
+    destruct r as [[[fr cb]|]|]; try exact I. pose proof (w_step_tail_id PS s1 (WFlush fo) s2 fr cb E) as HT.
+    destruct fr; try exact I. etransitivity; [exact HT|]. exact (hi_id PS s2 endId _ done HI2).
+Qed.
+Print Assumptions C17_persisted_tail_id_counts_the_published_events.
